@@ -529,7 +529,7 @@ def build_cases(tier, seed):
     # ---- C: per-part consumption tuples ----------------------------------------------------------
     for b in bnds:
         short = len(b) <= 2
-        nmax = 2 if (quick or not short) else 3
+        nmax = 3 if (not quick and b == bnds[0]) else 2
         if len(b) == 70:
             nmax = 1 if quick else 2
         for cs, hv in gen_part_lists(sym, b, nmax, sym.core(b), 3, hv_product_upto=1):
@@ -1081,16 +1081,20 @@ def check(rep):
         'for edited bodies header parsing leniency is not pinned unless the strict decoder accepts the body',
         'async parser driven without an event loop (the fake source never suspends)',
     ]
-    # deterministic, weight-balanced shards (simplest cases first inside every shard)
-    order = list(range(len(cases)))
-    nshards = 96 if quick else 384
-    shards = [[] for _ in range(nshards)]
-    loads = [0] * nshards
-    for i in sorted(order, key=lambda i: -weight(cases[i])):
-        k = loads.index(min(loads))
-        shards[k].append(i)
-        loads[k] += weight(cases[i])
-    shards = sorted((sorted(s) for s in shards if s), key=lambda s: s[0])
+    nshards = 96 if quick else 512
+    # contiguous, weight-balanced shards: merge order = case order, so the first example kept for a
+    # violation kind is the simplest one
+    total = sum(weight(cases[i]) for i in range(len(cases)))
+    target = max(1, total // nshards)
+    shards, cur, acc = [], [], 0
+    for i in range(len(cases)):
+        cur.append(i)
+        acc += weight(cases[i])
+        if acc >= target:
+            shards.append(cur)
+            cur, acc = [], 0
+    if cur:
+        shards.append(cur)
     if rep.seed:
         r = rep.seed % len(shards)
         shards = shards[r:] + shards[:r]
